@@ -557,6 +557,23 @@ func c13Run(t *rapid.T) {
 			}
 			compare(i, j, "NewTemplate+Exec", out, err, rt)
 			count("c13_op_newtemplate", 1)
+			if uni(t, "reusedata", 3) == 0 {
+				// a caller that keeps its nested data objects (maps, slices) and passes the same ones to every render;
+				// the generated programs assign nothing into context data, so every render must equal the reference
+				hist = append(hist, fmt.Sprintf("prog %d executed 3 times, each with a fresh context over the SAME nested data objects, data %d", i, j))
+				reuse := map[string]interface{}{}
+				for x := 0; x < 3; x++ {
+					rt2 := newRT(i, j)
+					rt2.Reuse = reuse
+					var out2 string
+					tm2, err2 := simNewTemplate(progs[i].text)
+					if err2 == nil {
+						out2, err2 = safeExec(tm2, plush.NewContextWith(rt2.contextData()))
+					}
+					compare(i, j, "Exec with the caller's nested data objects re-used", out2, err2, rt2)
+				}
+				count("c13_op_reused_nested_data", 1)
+			}
 			if uni(t, "zerovalue", 4) == 0 {
 				// a Template value built by hand (Input is an exported field) parses itself on first use
 				hist = append(hist, fmt.Sprintf("&Template{Input: prog %d} executed 3 times, data %d", i, j))
